@@ -128,7 +128,7 @@ def gen_cases(tier, rng):
     for st in ["RawData(%s)" % k for k in tc.RAW] + ["Plaintext", "CdataSection"]:
         for s in tc.TEXT + ["</s>", "</S >", "</s/>", "</sx>", "<!--", "<!-- --> -->", "<s", "</", "<!--<s>", "<!--<script>-->",
                             "<!--<script></script>-->"]:
-            for last in ("~", tc.hx("s"), tc.hx("script")):
+            for last in ("~", tc.hx("s"), tc.hx("script"), tc.hx("S"), tc.hx("sCript"), tc.hx("é")):
                 cases.append((tc.case([s], state=st, last=last, pol=tc.RAW_POL), "text"))
     # one case per code point in every kind of position
     from props import C08 as _c08
